@@ -12,6 +12,15 @@ pub struct Case {
     pub seq: Bytes,
     pub w: usize,
     pub m: usize,
+    /// the sequence is repeated to at least this many bytes (0 = as it is): runs and positions beyond 2^16
+    #[serde(default)]
+    pub min_len: usize,
+}
+
+impl Case {
+    pub fn full(&self) -> Vec<u8> {
+        super::c01::stretched(&self.seq, self.min_len)
+    }
 }
 
 pub const SMALL_WM: &[(usize, usize)] = &[(2, 2), (3, 1), (3, 2), (4, 2), (5, 3), (6, 2), (1, 1), (3, 3), (4, 1)];
@@ -102,15 +111,18 @@ impl Leg for Random {
         strategy(tier, 31, 91)
     }
     fn check(c: &Case) -> Verdict {
-        check_case(&c.seq, c.w, c.m)
+        let seq = c.full();
+        let mut v = check_case(&seq, c.w, c.m);
+        v.class_if(seq.len() > 65536, "len>65536");
+        v
     }
 }
 
 pub fn strategy(tier: Tier, max_m: usize, max_w: usize) -> BoxedStrategy<Case> {
     let max = tier.pick(400, 3000);
     gen::wm_strategy(max_m, max_w)
-        .prop_flat_map(move |(w, m)| (gen::seq(w, max, false), Just(w), Just(m)))
-        .prop_map(|(seq, w, m)| Case { seq: Bytes(seq), w, m })
+        .prop_flat_map(move |(w, m)| (gen::seq(w, max, false), Just(w), Just(m), prop_oneof![400 => Just(0usize), 2 => Just(5_000usize), 1 => Just(70_000usize)]))
+        .prop_map(|(seq, w, m, min_len)| Case { seq: Bytes(seq), w, m, min_len })
         .boxed()
 }
 
@@ -128,7 +140,7 @@ pub fn small_cases(maxlen: usize, shard: usize, nshards: usize, wm_max_w: usize)
             SMALL_WM
                 .iter()
                 .filter(move |(w, _)| *w <= wm_max_w)
-                .map(move |&(w, m)| Case { seq: Bytes(s.clone()), w, m })
+                .map(move |&(w, m)| Case { seq: Bytes(s.clone()), w, m, min_len: 0 })
         })
     })
 }
@@ -143,7 +155,7 @@ impl Leg for Python {
     }
     fn check(c: &Case) -> Verdict {
         let mut v = Verdict::new();
-        let seq = super::c01::utf8_safe(&c.seq);
+        let seq = super::c01::utf8_safe(&c.full());
         let want = model::minimiser_runs(&seq, c.w, c.m);
         classify(&mut v, &seq, c.w, c.m, &want);
         v.class("python");
